@@ -15,7 +15,7 @@ use std::str::FromStr;
 
 pub const META: Meta = Meta {
     level: "exploration",
-    rule: "PeerId bytes: every multihash (code in {0x00,0x12,0x11,0x13,0xb220}) x digest length 0..=66 x 3 content patterns, every single-byte substitution (255 values), truncation and 1-byte extension of the peer ids of 4 key types; base58: every string of length <=3 (quick) / <=4 (thorough) over a 10-character alphabet (valid, look-alike invalid, non-ASCII) and every single-character substitution of valid ids; keys: 3 fixed keys per type (ed25519, secp256k1, ecdsa, rsa 2048/3072/4096): public/private protobuf round trip vs an independent encoder, peer-id derivation vs an independent SHA-256, every single-byte substitution and truncation of the public and private encodings (RSA private: 3 masks quick / 255 thorough), every byte string of length <=3 / <=4 over {00,08,12,01,02,03,ff}. Non-trivial = distinct inputs other than untouched valid encodings.",
+    rule: "PeerId bytes: every multihash (code in {0x00,0x12,0x11,0x13,0xb220}) x digest length 0..=66 x 3 content patterns, every single-byte substitution (255 values), truncation and 1-byte extension of the peer ids of 4 key types; base58: every string of length <=3 (quick) / <=4 (thorough) over a 10-character alphabet (valid, look-alike invalid, non-ASCII) and every single-character substitution of valid ids; keys: 3 fixed keys per type (ed25519, secp256k1, ecdsa, rsa 2048/3072/4096): public/private protobuf round trip vs an independent encoder, peer-id derivation vs an independent SHA-256, every single-byte substitution and truncation of the public and private encodings (RSA private: 3 masks quick / 255 thorough), every byte string of length <=3 / <=4 over {00,08,12,01,02,03,ff}; structure-aware edits of each key type's inner encoding (raw key bytes, X.509 SPKI, SEC1, PKCS#1): every prefix of the data and, for DER, for every TLV (also inside BIT/OCTET STRINGs wrapping DER): content emptied / cut to prefixes / one byte longer, trailing children dropped, node deleted / duplicated / re-tagged (9 tags), always with all enclosing DER lengths and the protobuf length recomputed, under each key-type number 0..4 and without a type field. Non-trivial = distinct inputs other than untouched valid encodings.",
     explanation: "Complete enumeration (E3). Oracle: from_bytes accepts exactly canonical identity multihashes with digest <=42 and SHA2-256 multihashes (reference multihash parser in the harness), accepted ids round-trip through bytes and base58 (reference base58 codec in the harness); PeerId of a key = identity multihash of the protobuf encoding iff it is <=42 bytes else SHA2-256 of it; key encodings equal an independent protobuf encoding and decode back to equal keys; whatever mutated input is accepted re-encodes to something that decodes to the same key; no call panics.",
     assumptions: &["keys are fixed test keys, not generated", "RSA private-key protobuf *encoding* is unsupported by the API (Err), only decoding is exercised", "digest interiors represented by three content patterns"],
 };
@@ -445,6 +445,42 @@ pub fn run(ctx: &Ctx) -> Outcome {
             en.case("priv", true, json!({"kind":"priv_bytes","bytes":hex(&senc)}));
             let masks: &[u8] = if kind == 3 && ctx.quick() { &[0x01, 0x80, 0xff] } else { &all_masks };
             mutations(&senc, masks, |v| en.case("privmut", false, json!({"kind":"priv_bytes","bytes":hex(&v)})));
+        }
+        // ---- structure-aware edits of each key type's inner encoding, re-wrapped in a
+        //      well-formed protobuf (lengths recomputed), under every key-type number
+        for kind in 0..4usize {
+            let kp = keys::key(kind, 0);
+            let penc = kp.public().encode_protobuf();
+            let senc = match kp.to_protobuf_encoding() {
+                Ok(e) => e,
+                Err(_) => kit::pb::W::new().uint(1, 0).bytes(2, &keys::pkcs1_of_pkcs8(keys::rsa_pk8(0)).unwrap()).finish(),
+            };
+            for (what, enc) in [("pub_bytes", penc), ("priv_bytes", senc)] {
+                let Some(fields) = kit::pb::parse(&enc) else { continue };
+                let Some(data) = fields.iter().find_map(|f| if let kit::pb::Field::Bytes(2, d) = f { Some(d.clone()) } else { None }) else { continue };
+                let mut variants: Vec<Vec<u8>> = Vec::new();
+                let lens: Vec<usize> = if data.len() <= 130 { (0..data.len()).collect() } else { vec![0, 1, 2, 3, 4, 8, 16, data.len() / 2, data.len() - 2, data.len() - 1] };
+                for l in lens {
+                    variants.push(data[..l].to_vec());
+                }
+                let mut longer = data.clone();
+                longer.push(0);
+                variants.push(longer);
+                for (_, e) in crate::der::edits(&data) {
+                    variants.push(e);
+                }
+                variants.sort();
+                variants.dedup();
+                for v in &variants {
+                    for t in 0..5u64 {
+                        let b = kit::pb::W::new().uint(1, t).bytes(2, v).finish();
+                        en.case(if what == "pub_bytes" { "pubstruct" } else { "privstruct" }, false, json!({"kind":what,"bytes":hex(&b)}));
+                    }
+                    // data field only / data before type
+                    let b = kit::pb::W::new().bytes(2, v).finish();
+                    en.case(if what == "pub_bytes" { "pubstruct" } else { "privstruct" }, false, json!({"kind":what,"bytes":hex(&b)}));
+                }
+            }
         }
         // ---- short byte strings
         let a: [u8; 7] = [0x00, 0x08, 0x12, 0x01, 0x02, 0x03, 0xff];
